@@ -2093,8 +2093,18 @@ def _take_dask_array_from_numpy(a, indices, axis):
     assert isinstance(a, np.ndarray)
     assert isinstance(indices, Array)
 
+    # np.take(a, idx, axis).shape == a.shape[:axis] + idx.shape + a.shape[axis + 1 :]:
+    # the axes of ``a`` other than ``axis`` surround those of the indices
+    before = tuple((s,) for s in a.shape[:axis])
+    after = tuple((s,) for s in a.shape[axis + 1 :])
+    new_axis = list(range(axis)) + list(
+        range(axis + indices.ndim, axis + indices.ndim + len(after))
+    )
     return indices.map_blocks(
-        lambda block: np.take(a, block, axis), chunks=indices.chunks, dtype=a.dtype
+        lambda block: np.take(a, block, axis),
+        chunks=before + indices.chunks + after,
+        new_axis=new_axis,
+        dtype=a.dtype,
     )
 
 
